@@ -267,6 +267,40 @@ def run_cases(chk, tier):
         except Exception as e:  # noqa: BLE001
             chk.violation(f"sjoin/{how}/raises-{common.err_kind(e)}/other-geometry-columns", dict(rep, error=repr(e)[:300]), size=6)
         chk.count("other-geometry-columns")
+    # a right join where the left frame holds a (non-active) geometry column named like the right frame's active one: both get a
+    # suffix, the result carries the right frame's
+    for k in range(2):
+        lpts = [[r.randint(0, 12), r.randint(0, 12)] for _ in range(5)]
+        shapes = [[[0, 0, 7, 0, 7, 7, 0, 7, 0, 0]], [[5, 5, 13, 5, 13, 13, 5, 13, 5, 5]]]
+        ldf = GeoDataFrame({"shape": geo.make_array("line", [[i, 0, i, 1] for i in range(5)], "float64"), "pts": geo.make_array("point", lpts, "float64"),
+                            "lv": list(range(5))}).set_geometry("pts")
+        rdf = GeoDataFrame({"shape": geo.make_array("polygon", shapes, "float64"), "rv": [10, 11]})
+        rep = dict(api="sjoin", how="right", left_points=lpts, kind="polygon", right_shapes=shapes, layout="left frame has a geometry column named like the right frame's active one")
+        try:
+            res = sjoin(ldf, rdf, how="right", lsuffix="l", rsuffix="r")
+            chk.evaluated(len(res))
+            act = res.geometry.name
+            if act != "shape_r" or str(res.geometry.dtype).split("[")[0] != "polygon":
+                chk.violation("sjoin/right/result-geometry-is-not-the-joined-column/suffixed", dict(rep, got=str(act), dtype=str(res.geometry.dtype), expected="shape_r (polygon)"), size=5)
+        except Exception as e:  # noqa: BLE001
+            chk.violation(f"sjoin/right/raises-{common.err_kind(e)}/suffixed-geometry", dict(rep, error=repr(e)[:300]), size=5)
+    # a Dask left frame with a partition of missing points only: 'left' keeps those rows (unmatched), 'inner' has none of them
+    for how in ("left", "inner"):
+        lpts = [[2, 2], [6, 6], [20, 20], None, None, None, [12, 12], [3, 9], [30, 1]]
+        shapes = [[[0, 0, 7, 0, 7, 7, 0, 7, 0, 0]], [[5, 5, 13, 5, 13, 13, 5, 13, 5, 5]]]
+        rep = dict(api="sjoin", how=how, left_points=lpts, kind="polygon", right_shapes=shapes, layout="Dask left frame, 3 partitions, the middle one all missing")
+        try:
+            ldf = GeoDataFrame({"lv": list(range(9)), "geometry": geo.make_array("point", lpts, "float64")})
+            rdf = GeoDataFrame({"rv": [10, 11], "geometry": geo.make_array("polygon", shapes, "float64")})
+            comp = sjoin(dd.from_pandas(ldf, npartitions=3), rdf, how=how).compute(scheduler="synchronous")
+            got = sorted(str((int(a), None if pd.isna(b) else int(b))) for a, b in zip(comp["lv"], comp["rv"]))
+            want = sorted(str((i, None if j is None else 10 + j)) for i, j in model_join(how, lpts, "polygon", shapes))
+            chk.evaluated(len(comp))
+            if got != want:
+                chk.violation(f"sjoin/{how}/dask-rows-differ/all-missing-partition", dict(rep, got=got, expected=want), size=9)
+        except Exception as e:  # noqa: BLE001
+            chk.violation(f"sjoin/{how}/raises-{common.err_kind(e)}/dask-all-missing-partition", dict(rep, error=repr(e)[:300]), size=9)
+    chk.count("dask-all-missing-partition")
     # single-precision points joined with double-precision shapes whose sides single precision cannot represent (odd coordinates
     # around 2^24; points at even ones, one unit inside or outside a side): the shape is compared as stored
     B = 2 ** 24
